@@ -261,15 +261,15 @@ fn simpler(op: &Op) -> Vec<Op> {
                 out.push(Op::Retain { m: *m, pred: Pred::None, mutate: *mutate });
             }
         }
-        Op::DrainFilter { m, pred, mutate, consume } => {
+        Op::DrainFilter { m, pred, mutate, consume, drop_panic } => {
             if *consume != Consume::All {
-                out.push(Op::DrainFilter { m: *m, pred: *pred, mutate: *mutate, consume: Consume::All });
+                out.push(Op::DrainFilter { m: *m, pred: *pred, mutate: *mutate, consume: Consume::All, drop_panic: None });
             }
             if mutate.is_some() {
-                out.push(Op::DrainFilter { m: *m, pred: *pred, mutate: None, consume: *consume });
+                out.push(Op::DrainFilter { m: *m, pred: *pred, mutate: None, consume: *consume, drop_panic: *drop_panic });
             }
             if !matches!(pred, Pred::None | Pred::All) {
-                out.push(Op::DrainFilter { m: *m, pred: Pred::All, mutate: *mutate, consume: *consume });
+                out.push(Op::DrainFilter { m: *m, pred: Pred::All, mutate: *mutate, consume: *consume, drop_panic: *drop_panic });
             }
         }
         Op::Drain { m, consume } => {
